@@ -11,9 +11,26 @@ import gen as G
 
 THEOREMS = ["Adc.tree_flat", "Adc.treeOK_sound", "Adc.splitCT_perm", "Adc.splitCT_nodup", "Adc.mem_splitCT_target",
             "Adc.mem_splitCT_contracted", "Adc.splitCT_keeps_targets", "Adc.scalOf_total", "Adc.scalOf_mono", "Adc.step_le_single",
-            "Adc.mem_le_comp"]
+            "Adc.mem_le_comp", "Adc.codeScal_ok"]
 SPL = {"occ": "o", "virt": "v", "general": "g"}
 
+
+
+def generate_tables(ctx):
+    import tables
+    ctx.code_facts = tables.gen_code_facts()
+
+
+def on_build_failure(ctx, out):
+    """a lemma over the regenerated constants no longer checks: name the constant that differs from the model"""
+    f = getattr(ctx, "code_facts", None) or {}
+    want = {"base": {"occ": [ord(c) for c in "ijklmno"], "virt": [ord(c) for c in "abcdefgh"], "general": [ord(c) for c in "pqrstuvw"]},
+            "spins": ["", "a", "b"], "scal_fields": ["total", "general", "virt", "occ"], "scaling_fields": ["computational", "memory"],
+            "scal_order": True, "scaling_order": True}
+    for k, v in want.items():
+        if f.get(k) != v:
+            ctx.violation(f"constant of the code differs from the model ({k}): code has {f.get(k)!r}, the model (and its theorems) "
+                          f"assume {v!r}", {"kind": "code-constant", "constant": k, "code": f.get(k), "model": v})
 
 def term_operands(term):
     """(longname, idx tuple) per relevant object of the term, exponent-expanded, in Mul.args order"""
